@@ -388,6 +388,12 @@ fn c03_round<K: lasso::Key + std::hash::Hash + Send + Sync + 'static>(
         }
         for s in &failed {
             if by_string.contains_key(s.as_str()) {
+                // keys are never given back: a call refused for lack of keys means the string was absent with every
+                // key in use, so it can never be interned afterwards - and had it been interned before, the call
+                // had to return its key
+                if fails.len() < 20 {
+                    fails.push(format!("ORACLE C07 refused-although-interned: a call interning {s:?} was refused, yet the string holds key {} ({ctx})", by_string[s.as_str()]));
+                }
                 continue;
             }
             if rodeo.get(s).is_some() && fails.len() < 20 {
